@@ -417,6 +417,14 @@ def run_check(prop: str, tier: str, seed: int, replay: Optional[str] = None) -> 
             lines.append(f"VIOLATION property={prop} replay={path}")
             lines.append(f"  witness: {json.dumps(w, default=str)[:600]}")
 
+    # full list of violating witnesses of the last run (debug aid, git-ignored)
+    try:
+        with open(os.path.join(WORK_DIR, f"{prop}-violations.jsonl"), "w") as f:
+            for v in violations:
+                f.write(json.dumps({"case": v["case"], "witness": v["witness"]}, default=str) + "\n")
+    except OSError:
+        pass
+
     sample_idx = sorted(results)[:: max(1, len(results) // 4)][:4]
     samples = [case_list[i] for i in sample_idx] or case_list[:1]
     coverage = {
